@@ -1958,6 +1958,25 @@ func sharedConfigImmutable(c *an.Ctx, rule string, prefixes ...string) (examined
 			return chain(x.X, depth+1)
 		case *ssa.ChangeType:
 			return chain(x.X, depth+1)
+		case *ssa.Phi:
+			// one of several sources (tmpls := a.X; if … { tmpls = a.Y }): a source that leads into shared data decides
+			var first []string
+			found := false
+			for _, e := range x.Edges {
+				fs, ok := chain(e, depth+1)
+				if !ok {
+					continue
+				}
+				for _, f := range fs {
+					if sharedFields[f] {
+						return fs, true
+					}
+				}
+				if !found {
+					first, found = fs, true
+				}
+			}
+			return first, found
 		case *ssa.Parameter, *ssa.FreeVar:
 			return nil, true
 		}
@@ -3167,6 +3186,16 @@ func sharedSwappedArgs(c *an.Ctx, rule string, prefixes ...string) (examined int
 		if _, f, ok := fieldSource(v, 0); ok {
 			return f
 		}
+		// the result of a getter (rw.LocalAddr()) is named by the getter
+		if call, ok := v.(*ssa.Call); ok {
+			com := call.Common()
+			if com.IsInvoke() && len(com.Args) == 0 {
+				return com.Method.Name()
+			}
+			if callee := an.StaticCallee(call); callee != nil && callee.Signature.Recv() != nil && len(com.Args) == 1 {
+				return callee.Name()
+			}
+		}
 		return ""
 	}
 	for _, fn := range c.AllFns {
@@ -4299,7 +4328,7 @@ var propPkgs = map[string][]string{
 	"C14": {"profiledb", "backendpb.", "agdservice."},
 	"C15": {"querylog.", "dnssvc/internal/mainmw.", "dnssvc/internal/ratelimitmw.", "profiledb", "access.", "filter/internal."},
 	"C16": {"billstat.", "backendpb.", "dnssvc/internal/mainmw.", "dnssvc/internal/ratelimitmw.", "dnssvc/internal/preservice.", "agdservice.", "geoip.", "ecscache.", "dnsserver."},
-	"C17": {"dnsserver/forward.", "dnsserver/pool.", "cmd."},
+	"C17": {"dnsserver/forward.", "dnsserver/pool.", "dnsserver/prometheus.", "cmd."},
 	"C18": {"connlimiter.", "dnsserver.", "dnssvc.", "cmd."},
 	"C19": {"websvc.", "cmd."},
 	"C20": {"cmd.", "dnssvc.", "dnsserver."},
@@ -4346,6 +4375,8 @@ func classSweep(c *an.Ctx, prop string) {
 	add("hoisted-elements", sharedNoHoistedElement(c, rule, pk...))
 	add("cmp-or", sharedCmpOrOrder(c, rule, pk...))
 	add("ctx-constructors", sharedContextConstructors(c, rule, pk...))
+	add("prefix-bitlen", sharedPrefixOfSameAddr(c, rule, pk...))
+	add("locks-released", sharedLockReleased(c, rule, pk...))
 	n := 0
 	for _, p := range pk {
 		n += sharedNoShallowCopy(c, rule, p, "github.com/miekg/dns.Msg")
@@ -5988,4 +6019,250 @@ func putSourceField(v ssa.Value) (fa *ssa.FieldAddr) {
 		}
 	}
 	return fa
+}
+
+// sharedSubmessageNilSafe: a sub-message of a protobuf message is a pointer
+// that is nil whenever the sender left the field out.  A converter that reads
+// a field through such a pointer (x.Sub.F) without a nil test of it panics on
+// a message that lacks the sub-message; in the profile synchronisation a panic
+// ends the periodic refresh loop, so one such profile stops every later update.
+// For every field access whose base is a pointer loaded from a field of a
+// generated message type (declared in a .pb.go file of the package), a nil
+// test of that pointer must dominate the access.  Generated getters are
+// nil-safe and are not field accesses.  Returns the number of accesses examined.
+func sharedSubmessageNilSafe(c *an.Ctx, rule string, pkgPrefix string) (examined int) {
+	isGenerated := func(t types.Type) bool {
+		n := an.NamedOf(an.Deref(t))
+		if n == nil || n.Obj() == nil {
+			return false
+		}
+		return strings.HasSuffix(c.Prog.Fset.Position(n.Obj().Pos()).Filename, ".pb.go")
+	}
+	for _, fn := range c.AllFns {
+		k := an.FnKey(fn)
+		if fn.Blocks == nil || c.IsTestFile(fn.Pos()) || !c.Prog.InRepo(fn) || !strings.HasPrefix(k, pkgPrefix) || strings.Contains(c.Pos(fn.Pos()), ".pb.go:") {
+			continue
+		}
+		n := 0
+		bad := map[string]bool{}
+		an.Instrs(fn, func(in ssa.Instruction) {
+			fa, ok := in.(*ssa.FieldAddr)
+			if !ok {
+				return
+			}
+			ld, ok := fa.X.(*ssa.UnOp)
+			if !ok || ld.Op != token.MUL {
+				return
+			}
+			src, ok := ld.X.(*ssa.FieldAddr)
+			if !ok || !isGenerated(ld.Type()) || !isGenerated(src.X.Type()) {
+				return
+			}
+			n++
+			same := func(v ssa.Value) bool {
+				if v == ssa.Value(ld) {
+					return true
+				}
+				l2, ok := v.(*ssa.UnOp)
+				if !ok || l2.Op != token.MUL {
+					return false
+				}
+				f2, ok := l2.X.(*ssa.FieldAddr)
+				return ok && f2.X == src.X && f2.Field == src.Field
+			}
+			guarded := false
+			for _, e := range an.DominatingConds(fa.Block()) {
+				b, ok := e.If.Cond.(*ssa.BinOp)
+				if !ok || b.Op != token.EQL && b.Op != token.NEQ {
+					continue
+				}
+				var isEq, hit bool
+				switch {
+				case an.IsNilConst(b.Y) && same(b.X), an.IsNilConst(b.X) && same(b.Y):
+					isEq, hit = b.Op == token.EQL, true
+				}
+				if hit && isEq != e.Branch {
+					guarded = true
+				}
+			}
+			if !guarded {
+				_, sub, _, _ := an.FieldOf(src)
+				_, f, _, _ := an.FieldOf(fa)
+				bad[fmt.Sprintf("%s.%s (%s)", sub, f, c.Pos(fa.Pos()))] = true
+			}
+		})
+		if n == 0 {
+			continue
+		}
+		examined += n
+		c.Analysed(k)
+		var bs []string
+		for b := range bad {
+			bs = append(bs, b)
+		}
+		sort.Strings(bs)
+		c.Check(len(bs) == 0, rule, k+" reads sub-messages only after a nil test", fn.Pos(),
+			fmt.Sprintf("%d field accesses through sub-message pointers, each dominated by a nil test", n),
+			"a message without the sub-message makes this a nil dereference: "+strings.Join(bs, ", ")+"; the panic ends the periodic refresh loop, so one such message stops every later synchronisation")
+	}
+	return examined
+}
+
+// sharedPrefixOfSameAddr: a.Prefix(b.BitLen()) turns an address into the
+// single-address prefix only when a and b are the same address value; the full
+// length of one address applied to a transformed copy of it (unmapped, zoned)
+// is out of range or covers a different set.  Returns the number of such calls
+// examined.
+func sharedPrefixOfSameAddr(c *an.Ctx, rule string, prefixes ...string) (examined int) {
+	var same func(a, b ssa.Value) bool
+	same = func(a, b ssa.Value) bool {
+		if a == b {
+			return true
+		}
+		la, ok1 := a.(*ssa.UnOp)
+		lb, ok2 := b.(*ssa.UnOp)
+		if ok1 && ok2 && la.Op == token.MUL && lb.Op == token.MUL {
+			if la.X == lb.X {
+				return true
+			}
+			pa, oka := an.AccessPath(la.X)
+			pb, okb := an.AccessPath(lb.X)
+			if oka && okb && pa == pb {
+				return true
+			}
+			fa, oka := la.X.(*ssa.FieldAddr)
+			fb, okb := lb.X.(*ssa.FieldAddr)
+			return oka && okb && fa.Field == fb.Field && same(fa.X, fb.X)
+		}
+		return false
+	}
+	for _, fn := range c.AllFns {
+		if fn.Blocks == nil || c.IsTestFile(fn.Pos()) || !c.Prog.InRepo(fn) || !hasAnyPrefix(an.FnKey(fn), prefixes) {
+			continue
+		}
+		for _, call := range an.Calls(fn) {
+			if an.CalleeName(call) != "(net/netip.Addr).Prefix" || len(call.Common().Args) != 2 {
+				continue
+			}
+			bl, ok := call.Common().Args[1].(*ssa.Call)
+			if !ok || an.CalleeName(bl) != "(net/netip.Addr).BitLen" || len(bl.Call.Args) != 1 {
+				continue
+			}
+			examined++
+			c.Analysed(an.FnKey(fn))
+			ok = same(call.Common().Args[0], bl.Call.Args[0])
+			c.Check(ok, rule, fmt.Sprintf("%s: Prefix(BitLen()) site %d uses one address", an.FnKey(fn), siteIndex(fn, call)), call.Pos(),
+				"the prefix length is the bit length of the address the prefix is made from",
+				"the prefix is made from one address with the bit length of another (a transformed copy): for an IPv4-mapped address the length is out of range and the conversion fails, or the prefix covers a different set of clients")
+		}
+	}
+	return examined
+}
+
+
+// sharedLockReleased: a mutex that a function locks is unlocked (or its unlock
+// is deferred) on every path from the Lock to a return of that function.  An
+// early return placed between the Lock and the `defer Unlock` leaves the mutex
+// locked for ever; the next caller blocks (the upstream status listener blocks
+// the health-check round, and traffic never returns to the main upstreams).
+// Returns the number of Lock calls examined.
+func sharedLockReleased(c *an.Ctx, rule string, prefixes ...string) (examined int) {
+	lockName := func(call ssa.CallInstruction) (kind string) {
+		switch an.CalleeName(call) {
+		case "(*sync.Mutex).Lock", "(*sync.RWMutex).Lock":
+			return "Lock"
+		case "(*sync.RWMutex).RLock":
+			return "RLock"
+		case "(*sync.Mutex).Unlock", "(*sync.RWMutex).Unlock":
+			return "Unlock"
+		case "(*sync.RWMutex).RUnlock":
+			return "RUnlock"
+		}
+		return ""
+	}
+	for _, fn := range c.AllFns {
+		if fn.Blocks == nil || c.IsTestFile(fn.Pos()) || !c.Prog.InRepo(fn) || !hasAnyPrefix(an.FnKey(fn), prefixes) {
+			continue
+		}
+		for _, call := range an.Calls(fn) {
+			kind := lockName(call)
+			if kind != "Lock" && kind != "RLock" {
+				continue
+			}
+			if _, isDefer := call.(*ssa.Defer); isDefer {
+				continue
+			}
+			path, ok := an.AccessPath(call.Common().Args[0])
+			if !ok {
+				continue
+			}
+			want := map[string]string{"Lock": "Unlock", "RLock": "RUnlock"}[kind]
+			releases := func(in ssa.Instruction) bool {
+				cl, ok := in.(ssa.CallInstruction)
+				if !ok {
+					return false
+				}
+				if lockName(cl) == want {
+					p2, ok := an.AccessPath(cl.Common().Args[0])
+					return ok && p2 == path
+				}
+				// a deferred closure that unlocks
+				if d, ok := in.(*ssa.Defer); ok {
+					if mc, ok := d.Call.Value.(*ssa.MakeClosure); ok {
+						if f, ok := mc.Fn.(*ssa.Function); ok {
+							for _, c2 := range an.Calls(f) {
+								if lockName(c2) == want {
+									return true
+								}
+							}
+						}
+					}
+				}
+				return false
+			}
+			examined++
+			c.Analysed(an.FnKey(fn))
+			// search from just after the Lock for a return not preceded by a release
+			blk, i := an.After(call)
+			seen := map[*ssa.BasicBlock]bool{}
+			type st struct {
+				b *ssa.BasicBlock
+				i int
+			}
+			work := []st{{blk, i}}
+			leak := token.NoPos
+			for len(work) > 0 && leak == token.NoPos {
+				s := work[len(work)-1]
+				work = work[:len(work)-1]
+				released := false
+				for j := s.i; j < len(s.b.Instrs); j++ {
+					in := s.b.Instrs[j]
+					if releases(in) {
+						released = true
+						break
+					}
+					if r, ok := in.(*ssa.Return); ok {
+						leak = r.Pos()
+						if leak == token.NoPos {
+							leak = call.Pos()
+						}
+						break
+					}
+				}
+				if released || leak != token.NoPos {
+					continue
+				}
+				for _, succ := range s.b.Succs {
+					if !seen[succ] {
+						seen[succ] = true
+						work = append(work, st{succ, 0})
+					}
+				}
+			}
+			key := fmt.Sprintf("%s releases %s after %s #%d", an.FnKey(fn), path, kind, siteIndex(fn, call))
+			c.Check(leak == token.NoPos, rule, key, call.Pos(), "every path from the "+kind+" to a return passes the "+want+" or its defer",
+				fmt.Sprintf("the return at %s is reached with %s still locked (no %s and no deferred one on that path): the next %s blocks for ever", c.Pos(leak), path, want, kind))
+		}
+	}
+	return examined
 }
